@@ -242,7 +242,21 @@ def fam_recursion(ctx):
     return {"must_report": ["ST.recursion|rec_unbounded_bad"], "must_not_report": ["ST.recursion|rec_param_ok", "ST.recursion|rec_field_ok"]}
 
 
-FAMILIES = {"recursion": fam_recursion, "bounds": fam_bounds, "errflow": fam_errflow, "fold": fam_fold, "readloop": fam_readloop, "lock": fam_lock, "gate": fam_gate, "publish": fam_publish, "taint": fam_taint, "panic": fam_panic, "loop": fam_loop, "slice": fam_slice}
+def fam_dirty(ctx):
+    from . import dirtyflag
+    from .engine import Ctx
+    sub = Ctx(ctx.prog, ctx.prop, ctx.tier, selftest=True)
+    n = dirtyflag.rule_dirty(sub, "ST.dirty", ["verif_selftest"])
+    if n < 4:
+        raise RuntimeError("selftest: dirty-flag discovery found %d entry points in the witness crate, expected at least 4" % n)
+    bad = {v.key.split("::")[-1] for v in sub.violations}
+    for i in ("dirty_add_ok", "dirty_pop_ok", "dirty_touch_bad", "dirty_flush_then_add_bad"):
+        b = body(ctx, i)
+        (ctx.bad if i in bad else ctx.ok)("ST.dirty", [i], "unmarked mutation reported" if i in bad else "flag set on every mutating path", b.loc())
+    return {"must_report": ["ST.dirty|dirty_touch_bad", "ST.dirty|dirty_flush_then_add_bad"], "must_not_report": ["ST.dirty|dirty_add_ok", "ST.dirty|dirty_pop_ok"]}
+
+
+FAMILIES = {"dirty": fam_dirty, "recursion": fam_recursion, "bounds": fam_bounds, "errflow": fam_errflow, "fold": fam_fold, "readloop": fam_readloop, "lock": fam_lock, "gate": fam_gate, "publish": fam_publish, "taint": fam_taint, "panic": fam_panic, "loop": fam_loop, "slice": fam_slice}
 
 
 def for_families(names):
